@@ -44,7 +44,12 @@ def gen_system(rng):
         phy = rng.sample(range(0, 64), ncpus)
         procs = []
         ranked = mode == "all" or (mode == "some" and li == 0)
-        for _ in range(rng.randint(1, 3)):
+        nprocs = rng.randint(1, 3)
+        # a family of process ids of different decimal widths whose path order (proc.10 < proc.1000 < proc.999)
+        # starts with the smallest number and continues out of numeric order
+        b = rng.choice([10, 100, 1000])
+        famp = [b, b * 100, b * 100 - 1] if (nprocs == 3 and rng.random() < 0.3 and not same_pids) else None
+        for _ in range(nprocs):
             nt = rng.randint(1, 4)
             if rng.random() < 0.3:
                 # thread ids that straddle a change of decimal width (the kernel's
@@ -62,6 +67,8 @@ def gen_system(rng):
                 ppid = rng.choice([7, 98, 99, 100, 101, 9998, 10002])
             if same_pids and prev_pids and len(procs) < len(prev_pids) and rng.random() < 0.8:
                 ppid = prev_pids[len(procs)]
+            if famp and famp[len(procs)] not in used_pids:
+                ppid = famp[len(procs)]
             while ppid in used_pids:
                 ppid += 1
             used_pids.add(ppid)
